@@ -371,6 +371,8 @@ class C33(Prop):
             else:
                 t = hv.gen_type(rng, rng.choice([1, 2, 2, 3, 3, 3, 4, 4]))
             v = hv.gen_value(rng, t, allow_missing=False)
+            if rng.random() < 0.5:      # missing values in both spellings HailType._missing accepts: None and pandas.NA
+                v = hv.spell_missing(rng, t, v)
             yield {'type': t, 'value': v}
 
     def ordered(self, t, v, x):
@@ -409,8 +411,9 @@ class C33(Prop):
             try:
                 x = self.H.to_py(t, v)
             except Exception as e:      # the value cannot even be built (e.g. hl.Struct refusing a field name)
-                self._memo[key] = (e, v, None)
+                self._memo[key] = (e, hv.unspell(v), None)
                 return self._memo[key]
+            v = hv.unspell(v)           # from here on the spelling of a missing value is not an observable
             ov = self.ordered(t, v, x)
             try:
                 b = self.H.build_type(t)._to_encoding(x)
@@ -452,6 +455,7 @@ class C33(Prop):
             x = self.H.to_py(t, v)
         except Exception as e:
             return f'the value cannot be built: {type(e).__name__}: {str(e)[:100]}'
+        spelled, v = v, hv.unspell(v)
         want = hv.canon_case(t, v)
         try:
             b = ht._to_encoding(x)
@@ -482,7 +486,7 @@ class C33(Prop):
         # (c) memory order of n-d arrays is not visible in the bytes
         if has_nd(t) and 'set' not in hv.kinds(t, set()):
             try:
-                b2 = ht._to_encoding(self.H.to_py(t, flip_order(t, v)))
+                b2 = ht._to_encoding(self.H.to_py(t, flip_order(t, v)))       # (missing values spelled None here)
             except Exception as e:
                 return f'the same value with its arrays in the other memory order: _to_encoding raises {type(e).__name__}: {str(e)[:80]}'
             if b2 != b:
@@ -496,6 +500,7 @@ class C33(Prop):
         why = self.failure(t, v)
         if why is None:
             return None
+        v = hv.unspell(v)
         v2 = strip_nonnumeric_nd(t, v)
         if json.dumps(v2) != json.dumps(v):
             if v2 is None or self.failure(t, v2) is None:
@@ -511,6 +516,8 @@ class C33(Prop):
 
     def classify(self, c, out):
         t, v = c['type'], c['value']
+        spelled = json.dumps(v) != json.dumps(hv.unspell(v))
+        v = hv.unspell(v)
         acc = hv.count_values(t, v, [0, 0, 0])
         ks = hv.kinds(t, set())
         tags = ['has:' + k for k in sorted(ks)]
@@ -521,6 +528,8 @@ class C33(Prop):
             n = len(out[0]) // 2
             tags.append('bytes<=%d' % (8 if n <= 8 else 64 if n <= 64 else 512 if n <= 512 else 100000))
         tags.append('outcome:' + ('err' if out and out[0] == 'err' else 'ok'))
+        if spelled:
+            tags.append('missing-spelled-pd.NA')
         for nd in self._nds(t, v):
             tags.append('nd:rank=%d' % len(nd[1]))
             tags.append('nd:order=' + nd[3] if len(nd[1]) >= 2 else 'nd:order=n/a')
@@ -561,7 +570,7 @@ class C33(Prop):
         while changed:
             changed = False
             for t2, v2 in P32._smaller(t, v):
-                if v2 is not None and fails({'type': t2, 'value': v2}):
+                if v2 is not None and v2 != hv.PDNA and fails({'type': t2, 'value': v2}):
                     t, v = t2, v2
                     changed = True
                     break
